@@ -232,6 +232,12 @@ def gen_unit(rng, stream="main"):
         atoms = [""]                       # the empty document (a BOM may still precede it)
     elif r0 < 0.06:
         atoms = atoms[:rng.randint(1, 2)]  # very short documents: EOF inside the sniffing reads
+    # one document in 25 is damaged on its way (the same damage in every byte delivery of the unit); it ends in a
+    # multi-byte character, so that a cut lands inside one
+    damaged = rng.random() < 0.04
+    damaged_at, damaged_byte = rng.random(), rng.choice([0xFF, 0xC3, 0xE3, 0x80, 0xF0, 0xC0])
+    if damaged and not huge:
+        atoms = list(atoms) + [rng.choice(["\xe9", "\u20ac", "\U0001f600", "\u4e2d", "x\u0416", "\uac00"])]
     text = "".join(atoms)
     surr = has_surrogate(text)
     if rng.random() < 0.25:
@@ -243,6 +249,8 @@ def gen_unit(rng, stream="main"):
     if rng.random() < 0.5:
         encs[0] = rng.choice(["utf-8", "utf-16le", "utf-16be", "shift_jis", "gb18030", "big5", "euc-jp", "euc-kr",
                               "iso-2022-jp", "gbk"])
+    if damaged and rng.random() < 0.6:
+        encs = ["utf-8", rng.choice(["utf-8", "utf-16le", "shift_jis", "gb18030", "euc-kr", "big5"])]
     cases = []
     n_deliv = rng.randint(6, 10) if not giant else 4
     for _ in range(n_deliv):
@@ -265,6 +273,16 @@ def gen_unit(rng, stream="main"):
             case["encoding"] = enc
             case["declare"] = declare
             payload, chars = byte_payload(text, enc, declare)
+            if damaged and not giant:
+                # a transport cut the document inside a character, or a byte got into it that belongs to no character
+                m = {}
+                if rng.random() < 0.7:
+                    m["torn"] = rng.randint(1, 3)
+                if enc == "utf-8" and rng.random() < 0.5:
+                    m["bad"] = [damaged_at, damaged_byte]
+                if m:
+                    case["mangle"] = m
+                    payload = mangle(payload, m, len(BOMS[enc]) if declare == "bom" else 0)
         else:
             payload = text
             chars = text
@@ -341,14 +359,31 @@ def _parse_with(source, case, chunk, kwargs, log=None):
         probes.set_state_fn(None)
 
 
-def reference(chars, case):
-    key = (chars, case["mode"], case["container"], case["scripting"])
+def reference(chars, case, kwargs=None):
+    """The contiguous parse.  For a str (the characters) it is the parse of that str; for a byte string that is NOT the
+    encoding of any character string (`chars` is bytes: torn or damaged on purpose) it is the parse of the bytes object itself
+    in one piece - the property then says that every other delivery of the same bytes gives the same result."""
+    key = (chars, case["mode"], case["container"], case["scripting"], tuple(sorted((kwargs or {}).items())) if isinstance(chars, bytes) else None)
     hit = _ref_cache.get("k")
     if hit is not None and hit[0] == key:
         return hit[1]
-    out, _p = _parse_with(chars, case, max(10240, len(chars) + 1), {})
+    out, _p = _parse_with(chars, case, max(10240, len(chars) + 1), (kwargs or {}) if isinstance(chars, bytes) else {})
     _ref_cache["k"] = (key, out)
     return out
+
+
+def mangle(payload, m, bom_len=0):
+    """Damage a byte payload the way transports do: cut it inside a character, or put a byte into it that is not part of
+    any character."""
+    if not m:
+        return payload
+    if m.get("torn"):
+        payload = payload[:max(bom_len, len(payload) - m["torn"])]
+    if m.get("bad") is not None and len(payload) > bom_len:
+        frac, byte = m["bad"]
+        pos = bom_len + int(frac * (len(payload) - bom_len))
+        payload = payload[:pos] + bytes([byte]) + payload[pos:]
+    return payload
 
 
 def strip_stream_errors(errors):
@@ -452,9 +487,12 @@ def execute(case):
             kwargs["override_encoding"] = enc
         elif case["declare"] == "transport":
             kwargs["transport_encoding"] = enc
+        if case.get("mangle"):
+            payload = mangle(payload, case["mangle"], len(BOMS[enc]) if case["declare"] == "bom" else 0)
+            stats["faults"]["damaged_byte_payload"] = 1
     else:
         payload = chars = text
-    ref = reference(chars, case)
+    ref = reference(payload, case, kwargs) if case.get("mangle") and kind in sources.BYTE_KINDS else reference(chars, case)
     probes.reset()
     probes.set_budget(len(payload))
     log = ReadLog(len(payload))
@@ -586,6 +624,11 @@ def shrinks(case):
         yield dict(case, declare="override")
     if case["declare"] == "transport":
         yield dict(case, declare="override")
+    if case.get("mangle"):
+        yield dict(case, mangle=None)
+        for k in list(case["mangle"]):
+            if len(case["mangle"]) > 1:
+                yield dict(case, mangle={kk: v for kk, v in case["mangle"].items() if kk != k})
 
 
 def describe(case):
@@ -593,7 +636,7 @@ def describe(case):
     return {"text": text if len(text) <= 200 else text[:200] + "...(%d chars)" % len(text),
             "mode": case["mode"], "container": case["container"], "kind": case["kind"], "encoding": case["encoding"],
             "declare": case["declare"], "chunk": case["chunk"], "src": _short_src(case["src"]),
-            "strategy": case.get("strategy")}
+            "strategy": case.get("strategy"), "damage_to_the_bytes": case.get("mangle")}
 
 
 def _short_src(src):
